@@ -52,7 +52,7 @@ Qed.
 Lemma filter_map_comm : forall A (g : A -> A) (f : A -> bool) l, (forall x, f (g x) = f x) -> filter f (map g l) = map g (filter f l).
 Proof. induction l as [|x l IH]; simpl; intros H; [reflexivity|]. rewrite H. destruct (f x); simpl; rewrite IH; auto. Qed.
 
-Lemma unshadowed_erase : forall (f : item -> list (list str * tinfo)) l,
+Lemma unshadowed_erase : forall (f : item -> list (list pnode * tinfo)) l,
   Forall (fun x => f (erase_item x) = f x) l -> unshadowed_flat f (map erase_item l) = unshadowed_flat f l.
 Proof.
   induction l as [|x l IH]; simpl; intros HF; [reflexivity|]. inversion HF; subst. unfold shadowed. rewrite attrs_erase, attr_erase.
@@ -91,12 +91,17 @@ Qed.
 
 Lemma declared_module_erase : forall p m, declared_module p (erase_mod m) = declared_module p m.
 Proof.
-  intros. unfold declared_module. rewrite collapses_erase. unfold mod_hidden, mod_name. simpl.
+  intros. unfold declared_module. rewrite collapses_erase. unfold mod_hidden, mod_name, declared_mod_meta. simpl.
   rewrite !declared_items_erase. reflexivity.
 Qed.
 
-Lemma merged_name_erase : forall m, merged_name (erase_mod m) = merged_name m.
-Proof. intro m. unfold merged_name. rewrite collapses_erase. reflexivity. Qed.
+Lemma node_erase : forall x, item_node (erase_item x) = item_node x. Proof. destruct x; reflexivity. Qed.
+
+Lemma merged_node_erase : forall m, merged_node (erase_mod m) = merged_node m.
+Proof.
+  intro m. unfold merged_node. rewrite collapses_erase. unfold declared_mod_meta, mod_name. simpl. rewrite visible_classes_erase.
+  destruct (visible_classes (m_items m)) as [|c [|c' l]]; simpl; try reflexivity. rewrite node_erase. reflexivity.
+Qed.
 
 Lemma erase_rank_module : forall m n, erase_mod (fst (rank_module n m)) = erase_mod m.
 Proof.
@@ -118,7 +123,7 @@ Proof.
   - rewrite flat_map_concat_map, map_map, <- flat_map_concat_map. apply flat_map_ext_in. intros x Hx.
     unfold sub_spec. rewrite dir_name_erase, find_map_erase. rewrite Forall_forall in IH.
     destruct (find (file_is (dir_name x)) mods) as [m|]; simpl.
-    + unfold mod_hidden at 1. simpl. fold (mod_hidden m). rewrite merged_name_erase. destruct (mod_hidden m); [reflexivity|]. apply IH. assumption.
+    + unfold mod_hidden at 1. simpl. fold (mod_hidden m). rewrite merged_node_erase. destruct (mod_hidden m); [reflexivity|]. apply IH. assumption.
     + apply IH. assumption.
 Qed.
 
